@@ -512,7 +512,7 @@ def build_unit(unit_dir, out_path, units_dir=None, canary=None):
                 c = contracts[c[1:].strip()]['contract']
                 if 'ret' in contracts[it['contract'][1:].strip()] and 'ret' not in it:
                     it['ret'] = contracts[it['contract'][1:].strip()]['ret']
-            if canary == it['find']:
+            if canary == it['find'] or canary == '*':
                 if 'ensures' in c:
                     c = c.rstrip().rstrip(',') + ',\n        false,\n'
                 else:
